@@ -56,7 +56,7 @@ for _pid, _why in [
 ]:
     na(_pid, _why)
 
-prop("C02", ["sql_prec", "static_eval", "operator_tpl", "literals", "lex_numbers", "cid_inline", "lex_end_expr", "prql_prec", "range_sugar", "lower_expr"], select={"lower_expr": lambda n: n.split(".", 1)[1] in ("LO1", "LO1i", "LC1", "LC1i", "LA1", "LA1i", "LP1", "LL1", "MB1") or n.endswith(".safety"), "range_sugar": lambda n: n.split(".", 1)[1].startswith(("EB1.", "EB2.", "EU", "IN", "NB1", "EN1", "NS1", "RR", "RN1")) or n.endswith(".safety"), "prql_prec": lambda n: n.split(".", 1)[1].startswith(("PP1.", "FP1.")) or n.split(".", 1)[1] in ("NPF", "needs_parenthesis.safety", "BA1", "WW1"), "literals": lambda n: n.split(".", 1)[1] in ("TL1i", "TL1f", "NE1", "number_expr.safety")},
+prop("C02", ["sql_prec", "static_eval", "operator_tpl", "literals", "lex_numbers", "cid_inline", "lex_end_expr", "prql_prec", "range_sugar", "lower_expr"], select={"operator_tpl": lambda n: not n.split(".", 1)[1].startswith("WFA."), "lower_expr": lambda n: n.split(".", 1)[1] in ("LO1", "LO1i", "LC1", "LC1i", "LA1", "LA1i", "LP1", "LL1", "MB1") or n.endswith(".safety"), "range_sugar": lambda n: n.split(".", 1)[1].startswith(("EB1.", "EB2.", "EU", "IN", "NB1", "EN1", "NS1", "RR", "RN1")) or n.endswith(".safety"), "prql_prec": lambda n: n.split(".", 1)[1].startswith(("PP1.", "FP1.")) or n.split(".", 1)[1] in ("NPF", "needs_parenthesis.safety", "BA1", "WW1"), "literals": lambda n: n.split(".", 1)[1] in ("TL1i", "TL1f", "NE1", "number_expr.safety")},
      not_covered="evaluation inside the database; dialect templates beyond the strengths they declare; sites that build SQL operands "
                  "without translate_operand (process_concat, process_array_in, try_into_between) are not yet under contract")
 claim("C02",
@@ -74,7 +74,7 @@ claim("C02",
       "Context state not modelled); sqlparser enums are mechanically generated skeletons; sqlparser's Display is trusted to print trees as written.")
 
 prop("C01", ["split_order", "take_range", "operator_tpl", "vec_utils", "group_take", "flatten_sort", "sort_take", "sort_infer", "setop_pairs", "lower_transform", "positional_map", "sql_prec", "literal_rows", "lower_expr", "sql_relations"],
-     select={"sql_relations": lambda n: n.split(".", 1)[1] in ("JN1", "JN2", "translate_join.safety"), "sql_prec": lambda n: n.split(".", 1)[1] in ("NP5eq", "NP5ne", "process_null.safety", "NP6a", "NP6b", "try_into_between.safety", "try_into_between.precondition")},
+     select={"operator_tpl": lambda n: not n.split(".", 1)[1].startswith("WFA."), "sql_relations": lambda n: n.split(".", 1)[1] in ("JN1", "JN2", "translate_join.safety"), "sql_prec": lambda n: n.split(".", 1)[1] in ("NP5eq", "NP5ne", "process_null.safety", "NP6a", "NP6b", "try_into_between.safety", "try_into_between.precondition")},
      not_covered="anchor_split cid redirection, preprocess (distinct/union recognition), lowering, flattening, the other pluck call sites of translate_select_pipeline (select / sort / take / join): hash-map threaded folds over three "
                  "IRs; a violation there is invisible to these contracts")
 claim("C01",
@@ -101,7 +101,7 @@ def _c04_split(name):
             or lab in ("SO1.Take.Compute", "SO1.Distinct.Compute", "SO1.DistinctOn.Compute", "SO1.Aggregate.Compute") or lab.endswith(".safety"))
 
 
-prop("C04", ["window_frame", "split_order", "lower_cols", "group_take", "lower_transform", "dialect_flags", "flatten_sort", "range_sugar", "pl_fold"], select={"pl_fold": lambda n: n.split(".", 1)[1] in ("PTK1", "PTK2", "PT1", "PW1", "PR1", "PO1", "PS1", "PE1", "PE2") or n.endswith(".safety"), "range_sugar": lambda n: n.split(".", 1)[1] in ("ER1", "RR1", "RR2", "RR3", "RT1", "IL1", "IL2", "EN1") or n.split(".", 1)[1] in ("into_int.safety", "into_literal_range.safety", "try_restrict_range.safety", "expands_range.safety"), "flatten_sort": lambda n: n.split(".", 1)[1] in ("FT1", "FT2", "FT3", "FO1", "FO2", "flatten_call_slice.safety"), "dialect_flags": lambda n: n.rsplit(".", 1)[1] == "supports_distinct_on", "split_order": _c04_split, "lower_cols": lambda n: n.split(".", 1)[1] in ("DC5", "DC6") or n.endswith(".safety")},
+prop("C04", ["window_frame", "split_order", "lower_cols", "group_take", "lower_transform", "dialect_flags", "flatten_sort", "range_sugar", "pl_fold", "std_arity", "operator_tpl"], select={"operator_tpl": lambda n: n.split(".", 1)[1].startswith("WFA."), "std_arity": lambda n: n.split(".", 1)[1].startswith("SI."), "pl_fold": lambda n: n.split(".", 1)[1] in ("PTK1", "PTK2", "PT1", "PW1", "PR1", "PO1", "PS1", "PE1", "PE2") or n.endswith(".safety"), "range_sugar": lambda n: n.split(".", 1)[1] in ("ER1", "RR1", "RR2", "RR3", "RT1", "IL1", "IL2", "EN1") or n.split(".", 1)[1] in ("into_int.safety", "into_literal_range.safety", "try_restrict_range.safety", "expands_range.safety"), "flatten_sort": lambda n: n.split(".", 1)[1] in ("FT1", "FT2", "FT3", "FO1", "FO2", "flatten_call_slice.safety"), "dialect_flags": lambda n: n.rsplit(".", 1)[1] == "supports_distinct_on", "split_order": _c04_split, "lower_cols": lambda n: n.split(".", 1)[1] in ("DC5", "DC6") or n.endswith(".safety")},
      not_covered="that the Flattener's log entries are the expressions whose columns end up in the window (the recursion of fold_expr is external; its Sort / Group / Window arms and the call it builds are under contract in flatten_sort / window_frame), row-count preservation, the window of the ROW_NUMBER() column")
 claim("C04",
       "PARTIAL. Proved on the real code, for all inputs: the window transform maps expanding / rolling:n / rows / range to exactly the documented "
@@ -112,7 +112,7 @@ claim("C04",
       "never shares a SELECT with a preceding compute unless it is a HAVING, and reorder() never hoists a windowed compute over a take "
       "(split_order IC1, CM1, SO1c, RO1); an expression that needs a window always becomes a Compute of its own carrying the Lowerer's current window, and an "
       "expression that does not carries none (lower_cols DC5-6); the column that an aggregation or a window function takes as argument may be at most a CASE expression of the same SELECT - a window function or an aggregation has to come from a sub-query (get_requirements' cap, split_order GR1-2); `take a..b` inside a group is DISTINCT / DISTINCT ON only when exactly the first row is kept and "
-      "otherwise a filter on ROW_NUMBER() that holds exactly for positions a..b (group_take DT1-4, RN1). the Lowerer's current window while the columns of a derive / select are declared is exactly the transform call's window - frame kind and lowered bounds, the declared partition columns, the lowered sort - aggregated columns are declared with no window, and no window is left in effect after the transform; `take` gets the call's partition and sort (lower_transform LT1-4, LT9: the whole `match` of lower_pipeline over the transform kinds, with a ghost log of the declarations). the bounds of `rows:a..b` / `range:a..b` reach the frame computation as written: the range tuple is taken apart in order and a bound is open exactly for the null literal, closed exactly for an integer literal (range_sugar RR1-3, IL1-2, whole functions). NOT proved: how the Flattener fills partition / sort / frame of a call from the enclosing window transform, row-count preservation.",
+      "otherwise a filter on ROW_NUMBER() that holds exactly for positions a..b (group_take DT1-4, RN1). the Lowerer's current window while the columns of a derive / select are declared is exactly the transform call's window - frame kind and lowered bounds, the declared partition columns, the lowered sort - aggregated columns are declared with no window, and no window is left in effect after the transform; `take` gets the call's partition and sort (lower_transform LT1-4, LT9: the whole `match` of lower_pipeline over the transform kinds, with a ghost log of the declarations). the bounds of `rows:a..b` / `range:a..b` reach the frame computation as written: the range tuple is taken apart in order and a bound is open exactly for the null literal, closed exactly for an integer literal (range_sugar RR1-3, IL1-2, whole functions). in every dialect module the effective definition of each aggregate (min, max, sum, average, stddev, all, any, concat_array, count, count_distinct) is marked `window_frame=true`, so translate_windowed writes the frame the pipeline asks for (operator_tpl WFA.<fn>.<dialect> rows; the rows of `first` / `last` fail: recorded finding - FIRST_VALUE / LAST_VALUE are emitted without a frame); every std declaration is bound to the compiler-internal function of its own name - `rank_dense` to std.rank_dense and not to its neighbour's (std_arity SI.* rows, read from std.prql on every run). NOT proved: how the Flattener fills partition / sort / frame of a call from the enclosing window transform, row-count preservation.",
       "Flattener::fold_expr is external (ghost log of (expression, frame in effect)); slices drop the rest of resolve_special_func / "
       "translate_windowed; unpack_as_int_literal and sqlparser value construction are trusted by contract.")
 
@@ -229,7 +229,7 @@ claim("C13",
 
 def _safety(name):
     lab = name.split(".", 1)[1]
-    if lab.startswith("UA.") or lab.startswith("HP.") or lab.startswith("SF."):
+    if lab.startswith("UA.") or lab.startswith("HP.") or lab.startswith("SF.") or lab.startswith("SI."):
         return True
     return lab.endswith(".safety") or lab.endswith(".overflow") or lab.endswith(".div0") or lab.endswith(".decreases") or lab.endswith(".unreachable") or lab.endswith(".unwrap") or lab.endswith(".index") or lab.endswith(".loop_exit") or lab.endswith(".precondition") \
         or lab in ("SU2", "TR3s", "TR3e", "TR3o", "SB1", "SB2", "TS0", "WF1b", "XA1", "LN1", "TU1", "TU2", "SR1", "SR2", "SQ1", "SQ2", "EN1", "EN2", "EN3", "DL1", "NB1", "WS1", "IP1", "NB2") \
